@@ -17,6 +17,8 @@ BINOPS = [b'+', b'-', b'*', b'/', b'%', b'^', b'..', b'<', b'>', b'<=', b'>=', b
 UNOPS = [b'-', b'not', b'#', b'~', b'@', b'%', b'$']
 ASSIGNOPS = [b'=', b'+=', b'-=', b'*=', b'/=', b'%=', b'..=']
 
+from . import reflex
+
 PLAIN_NAMES = [b'x', b'y', b'i', b'j', b'player', b'enemies', b'score', b't', b'dx', b'dy', b'cam', b'_x', b'v2', b'Obj',
                b'hp', b'pos', b'vel', b'state', b'timer', b'idx', b'foo', b'bar', b'baz', b'q9']
 KW_NAMES = [b'endx', b'do_it', b'iffy', b'nots', b'android', b'forx', b'inn', b'_end', b'orb', b'nilx', b'truely',
@@ -44,6 +46,61 @@ NUM_FORMS = {
     'bin-frac': [b'0b1.1'],
     'bin-lead-dot': [b'0b.1'],
 }
+
+
+def gen_numerals():
+    """Deterministic numeral population: decimal mantissas (leading/trailing zeros, bare dots) x exponents (zeros at either end,
+    both signs, both cases), hex and binary with zero padding on either side of the point."""
+    seen = set()
+    mants = [b'0', b'1', b'10', b'100', b'007', b'0.5', b'0.50', b'2.0', b'100.00', b'1.', b'10.', b'.5', b'.50', b'1.5', b'2.50', b'0.0',
+             b'00.10', b'12.0625', b'3.25', b'.125', b'32767']
+    exps = [b'', b'e0', b'e1', b'e2', b'e10', b'E10', b'e-1', b'e-2', b'e-10', b'e-20', b'e+0', b'e+1', b'E+10', b'e00', b'e01', b'e-01',
+            b'e+02']
+    for m in mants:
+        for e in exps:
+            seen.add(m + e)
+    for pre in (b'0x', b'0X'):
+        for body in (b'0', b'f', b'0f', b'f0', b'10', b'00ff', b'1.8', b'1.80', b'01.08', b'.8', b'.80', b'a.c', b'A.C', b'0.0', b'7fff',
+                     b'7fff.ffff', b'e1', b'1e1', b'1.e1'):
+            seen.add(pre + body)
+    for pre in (b'0b', b'0B'):
+        for body in (b'0', b'1', b'10', b'01', b'1.1', b'1.10', b'01.01', b'.1', b'.10', b'0.0', b'1010.0101'):
+            seen.add(pre + body)
+    return sorted(n for n in seen if reflex.try_lex(n)[1] is None and len(reflex.lex(n)) == 1)
+
+
+def rand_numeral(rng):
+    """A random numeral from the reference numeral grammar (values small enough for exact comparison as fractions)."""
+    k = rng.random()
+    dig = lambda n, alpha=b'0123456789': bytes(rng.choice(alpha) for _ in range(n))
+    if k < 0.6:
+        ip = dig(rng.choice((0, 1, 1, 2, 3, 5)))
+        fp = dig(rng.choice((0, 0, 1, 2, 4)))
+        if rng.random() < 0.3 and fp:
+            fp = fp[:-1] + b'0'
+        if rng.random() < 0.2 and ip:
+            ip = b'0' + ip
+        dot = b'.' if (fp or not ip or rng.random() < 0.15) else b''
+        if not ip and not fp:
+            ip = b'0'
+        m = ip + dot + fp
+        if rng.random() < 0.4:
+            m += rng.choice((b'e', b'E')) + rng.choice((b'', b'', b'-', b'+')) + rng.choice((b'0', b'1', b'2', b'10', b'20', b'01', b'3'))
+        return m
+    if k < 0.85:
+        alpha = b'0123456789abcdefABCDEF'
+        ip = dig(rng.choice((0, 1, 2, 4)), alpha)
+        fp = dig(rng.choice((0, 0, 1, 2, 4)), alpha)
+        if not ip and not fp:
+            ip = b'0'
+        return rng.choice((b'0x', b'0X')) + ip + (b'.' + fp if fp else b'')
+    ip = dig(rng.choice((0, 1, 3, 8)), b'01')
+    fp = dig(rng.choice((0, 0, 1, 3)), b'01')
+    if not ip and not fp:
+        ip = b'1'
+    return rng.choice((b'0b', b'0B')) + ip + (b'.' + fp if fp else b'')
+
+
 # forms on which picotool's lexer is known/suspected to diverge (enabled explicitly)
 EXOTIC_NUM = ('exp-plus', 'hex-upper', 'hex-lead-dot', 'bin-upper', 'bin-lead-dot')
 
@@ -61,6 +118,7 @@ DEFAULT_OPTS = {
     'max_stmts': 6,
     'names_extra': None,         # extra identifier pool (C02: thousands of names)
     'vararg_main': True,
+    'table_methods': 0.0,        # probability that a table field is `name=function ... end` whose body is block; line-scoped; plain
 }
 
 
@@ -243,6 +301,14 @@ class Gen:
         f = rng.choice(forms)
         raw = rng.choice(NUM_FORMS[f])
         self.p.feats.add('num:' + f)
+        if self.o['exotic_numbers'] and rng.random() < 0.35:
+            for _ in range(8):
+                cand = rand_numeral(rng)
+                t, err = reflex.try_lex(cand)
+                if err is None and len(t) == 1 and t[0].kind == 'number':
+                    raw = cand
+                    self.p.feats.add('num:random')
+                    break
         self.t('number', raw)
         return ('num', raw)
 
@@ -334,7 +400,14 @@ class Gen:
             elif r < 0.5:
                 nm = self.name()
                 self.sym(b'=')
-                fields.append(('FieldNamedKey', nm, self.exp(d)))
+                if self.o['table_methods'] and not self.in_line and rng.random() < self.o['table_methods']:
+                    self.kw(b'function')
+                    force = [rng.choice(('if', 'forstep', 'while', 'do', 'forin')), rng.choice(('shortif', 'qprint', 'compound')),
+                             rng.choice(('assign', 'call', 'local'))]
+                    fields.append(('FieldNamedKey', nm, [('Function', self.funcbody(1, force=force))]))
+                    self.p.feats.add('table-method-with-block-then-line-scope')
+                else:
+                    fields.append(('FieldNamedKey', nm, self.exp(d)))
                 self.p.feats.add('FieldNamedKey')
             else:
                 fields.append(('FieldExp', self.exp(d)))
@@ -424,7 +497,7 @@ class Gen:
                 self.p.feats.add('FunctionCallMethod')
         return cur
 
-    def funcbody(self, d):
+    def funcbody(self, d, force=None):
         rng = self.rng
         self.sym(b'(')
         params = None
@@ -446,7 +519,7 @@ class Gen:
         self.sym(b')')
         save = (self.vararg, self.loop, self.labels)
         self.vararg, self.loop, self.labels = dots, 0, []
-        blk = self.block(d, func=True)
+        blk = self.block(d, func=True, force=force)
         self.vararg, self.loop, self.labels = save
         self.kw(b'end')
         if dots:
@@ -454,11 +527,14 @@ class Gen:
         return ('FunctionBody', params, dots, blk)
 
     # --- statements -------------------------------------------------------
-    def block(self, d, func=False, top=False):
+    def block(self, d, func=False, top=False, force=None):
         rng = self.rng
         stats = []
         n = rng.randint(0 if not top else 1, self.o['max_stmts'] if d > 0 else 2)
-        for _ in range(n):
+        for k in (force or ()):
+            self.p.stmts.append(len(self.p.toks))
+            stats.append(getattr(self, 's_' + k)(d))
+        for _ in range(n if not force else 0):
             stats.append(self.stat(d))
             if rng.random() < 0.12:
                 self.sym(b';')
